@@ -140,7 +140,7 @@ fn addr_of(a: u8) -> (String, u32) {
 // a held gRPC connection (own thread + runtime); dropping it closes the channel = client disconnect
 
 enum GMsg {
-    Instance { svc: String, ip: String, port: u32, register: bool, reply: std::sync::mpsc::Sender<Result<(), String>> },
+    Instance { svc: String, ip: String, port: u32, register: bool, enabled: bool, weight: f32, reply: std::sync::mpsc::Sender<Result<(), String>> },
     Close,
 }
 
@@ -225,7 +225,7 @@ impl GrpcConn {
                     };
                     match m {
                         GMsg::Close => break,
-                        GMsg::Instance { svc, ip, port, register, reply } => {
+                        GMsg::Instance { svc, ip, port, register, enabled, weight, reply } => {
                             let req = am::InstanceRequest {
                                 namespace: Some("".into()),
                                 service_name: Some(svc.clone()),
@@ -234,9 +234,9 @@ impl GrpcConn {
                                 instance: Some(am::Instance {
                                     ip: Some(Arc::new(ip)),
                                     port,
-                                    weight: 1.0,
+                                    weight,
                                     healthy: true,
-                                    enabled: true,
+                                    enabled,
                                     ephemeral: true,
                                     cluster_name: Some("DEFAULT".into()),
                                     service_name: Some(Arc::new(svc)),
@@ -273,6 +273,10 @@ impl GrpcConn {
     }
 
     pub fn instance(&self, svc: &str, ip: &str, port: u32, register: bool) -> Result<(), String> {
+        self.instance_with(svc, ip, port, register, true, 1.0)
+    }
+
+    pub fn instance_with(&self, svc: &str, ip: &str, port: u32, register: bool, enabled: bool, weight: f32) -> Result<(), String> {
         let (rtx, rrx) = std::sync::mpsc::channel();
         self.tx
             .send(GMsg::Instance {
@@ -280,6 +284,8 @@ impl GrpcConn {
                 ip: ip.to_string(),
                 port,
                 register,
+                enabled,
+                weight,
                 reply: rtx,
             })
             .map_err(|_| "connection thread gone".to_string())?;
